@@ -2,22 +2,21 @@
    Only statements, [exact], examples and [Print Assumptions] live here. *)
 From Coq Require Import String Ascii.
 From Coq Require Import List Arith Bool Permutation.
-Require Import TT.Model.Str TT.Model.C07TypeParse TT.Model.Harvest TT.Model.C07Worklist TT.Model.C07Reach.
+Require Import TT.Model.Str TT.Model.C07TypeParse TT.Model.C07Harvest TT.Model.C07Worklist TT.Model.C07Reach.
 Require Import TT.Spec.C07Spec TT.Spec.C07Known.
-Require Import TT.Proofs.C07TypeParseProofs TT.Proofs.HarvestProofs TT.Proofs.WorklistSpike TT.Proofs.C07Proofs TT.Proofs.C07Concrete TT.Proofs.C07Agree TT.Proofs.C07Lift TT.Proofs.C07Full TT.Proofs.C07Total TT.Proofs.C07Witness.
+Require Import TT.Proofs.C07TypeParseProofs TT.Proofs.C07HarvestProofs TT.Proofs.WorklistSpike TT.Proofs.C07Proofs TT.Proofs.C07Concrete TT.Proofs.C07Agree TT.Proofs.C07Lift TT.Proofs.C07Full TT.Proofs.C07Total TT.Proofs.C07Witness.
 Import ListNotations.
 
 (* For every iteration order of every hash collection (root set, dependency sets, used set, field name
-   sets, struct map, event name sets) and every project of the documented feature set outside the seven
-   recorded classes: the list of types declared in types.ts has no duplicate, contains exactly the
+   sets, struct map, event name sets) and every project of the documented feature set outside the five
+   remaining classes (the one-argument Result alias and the event payload dependencies were repaired): the list of types declared in types.ts has no duplicate, contains exactly the
    types of the specification (least set closed under field types from parameters, success arms of
    returns, channel messages and event payloads, restricted to project-defined serde types), and is a
    permutation of the list the run-time oracle computes. *)
 Theorem C07_exact : forall (o : orders) (p : project) (decl : list str),
   ord_ok o -> in_domain p = true ->
-  kf_c07_result_map p = false -> kf_c07_tuple_generic p = false -> kf_c07_result_alias p = false ->
+  kf_c07_result_map p = false -> kf_c07_tuple_generic p = false ->
   kf_c07_field_result p = false -> kf_c07_odd_name p = false -> kf_c07_inline_mod p = false ->
-  kf_c07_event_nested p = false ->
   C07Reach.declared o p = Some decl ->
   NoDup decl /\ (forall x, In x decl <-> SpecReach p x) /\ Permutation decl (reachable_spec p).
 Proof. exact declared_exact_full. Qed.
@@ -26,10 +25,10 @@ Proof. exact declared_exact_full. Qed.
    the three readers of type strings agree on the defined names, no type is reachable through the
    fields of an event payload only *)
 Theorem C07_exact_decidable_premises : forall (o : orders) (p : project) (decl : list str),
-  ord_ok o -> agree_b p = true -> kf_c07_event_nested_opt p = Some false ->
+  ord_ok o -> agree_b p = true ->
   C07Reach.declared o p = Some decl ->
   NoDup decl /\ forall x, In x decl <-> SpecReach p x.
-Proof. intros o p decl Ho Ha Hk Hd. exact (declared_exact o Ho p Ha decl Hk Hd). Qed.
+Proof. intros o p decl Ho Ha Hd. exact (declared_exact o Ho p Ha decl Hd). Qed.
 
 (* the list the run-time oracle compares with is that specification *)
 Theorem C07_spec_oracle_exact : forall p l, reach_from_opt p (command_roots p ++ event_roots p) = Some l ->
@@ -37,7 +36,7 @@ Theorem C07_spec_oracle_exact : forall p l, reach_from_opt p (command_roots p ++
 Proof. exact reachable_spec_exact. Qed.
 
 Theorem C07_exact_permutation : forall o p decl l,
-  ord_ok o -> agree_b p = true -> kf_c07_event_nested_opt p = Some false ->
+  ord_ok o -> agree_b p = true ->
   C07Reach.declared o p = Some decl -> reach_from_opt p (command_roots p ++ event_roots p) = Some l ->
   Permutation decl l.
 Proof. exact declared_permutation. Qed.
@@ -59,7 +58,7 @@ Proof. exact (nested_exact str str_dec). Qed.
 
 (* outside the syntactic classes the decidable agreement premise holds *)
 Theorem C07_agree_from_classes : forall p, in_domain p = true ->
-  kf_c07_result_map p = false -> kf_c07_tuple_generic p = false -> kf_c07_result_alias p = false ->
+  kf_c07_result_map p = false -> kf_c07_tuple_generic p = false ->
   kf_c07_field_result p = false -> kf_c07_odd_name p = false -> kf_c07_inline_mod p = false -> agree_b p = true.
 Proof. exact agree_from_classes. Qed.
 
@@ -69,13 +68,13 @@ Proof. exact agree_from_classes. Qed.
    collect_referenced_types_from_structure finds exactly the success-arm names (outside its two) *)
 Theorem C07_readers_agree : forall q y, ty_ok q = true -> good y ->
   kf_result_ok_has_comma (rty_of q) = false -> kf_tuple_elem_has_comma (rty_of q) = false ->
-  (kf_result_one_arg (rty_of q) = false -> (In y (extract_type_names (tstr q)) <-> In y (leaf_names q))) /\
+  (In y (extract_type_names (tstr q)) <-> In y (leaf_names q)) /\
   (In y (ts_of (tstr q)) <-> In y (ok_names q)).
 Proof. exact readers_agree. Qed.
 
 (* the name harvester returns exactly the named types (both arms of a Result), string level *)
 Theorem C07_harvest_names : forall fuel t, height t < fuel -> wf t -> heads_known t ->
-  kf_result_ok_has_comma t = false -> kf_tuple_elem_has_comma t = false -> kf_result_one_arg t = false ->
+  kf_result_ok_has_comma t = false -> kf_tuple_elem_has_comma t = false ->
   same_set (harvest fuel (tts t)) (names t).
 Proof. exact harvest_names. Qed.
 
@@ -92,10 +91,12 @@ Theorem C07_result_map_refuted : kf_c07_result_map w_result_map = true /\ refute
 Proof. exact result_map_refuted. Qed.
 Theorem C07_tuple_generic_refuted : kf_c07_tuple_generic w_tuple_generic = true /\ refutes w_tuple_generic.
 Proof. exact tuple_generic_refuted. Qed.
-Theorem C07_result_alias_refuted : kf_c07_result_alias w_result_alias = true /\ refutes w_result_alias.
-Proof. exact result_alias_refuted. Qed.
-Theorem C07_event_nested_refuted : kf_c07_event_nested_opt w_event_nested = Some true /\ refutes w_event_nested.
-Proof. exact event_nested_refuted. Qed.
+(* repaired (fix: harvester descends into Result<T>; event payload types bring their nested dependencies):
+   the former witnesses now declare exactly the specification's set *)
+Theorem C07_result_alias_repaired : repaired w_result_alias.
+Proof. exact result_alias_repaired. Qed.
+Theorem C07_event_nested_repaired : repaired w_event_nested.
+Proof. exact event_nested_repaired. Qed.
 Theorem C07_field_result_refuted : kf_c07_field_result w_field_result = true /\ refutes w_field_result.
 Proof. exact field_result_refuted. Qed.
 Theorem C07_inline_mod_refuted : kf_c07_inline_mod w_inline_mod = true /\ refutes w_inline_mod.
@@ -106,18 +107,18 @@ Proof. exact odd_name_refuted. Qed.
 (* non-vacuity: the sample project (diamond, cycle, enum, decoys, channel, helper event) meets every
    premise of C07_exact and declares eight types *)
 Example C07_ex_premises :
-  in_domain sample = true /\ agree_b sample = true /\ kf_c07_event_nested_opt sample = Some false /\
-  kf_c07_result_map sample = false /\ kf_c07_tuple_generic sample = false /\ kf_c07_result_alias sample = false /\
-  kf_c07_field_result sample = false /\ kf_c07_odd_name sample = false /\ kf_c07_event_nested sample = false /\
+  in_domain sample = true /\ agree_b sample = true /\
+  kf_c07_result_map sample = false /\ kf_c07_tuple_generic sample = false /\
+  kf_c07_field_result sample = false /\ kf_c07_odd_name sample = false /\
   kf_c07_inline_mod sample = false /\
   ord_ok o_default /\
   exists d, C07Reach.declared o_default sample = Some d /\ List.length d = 8.
-Proof. do 10 (split; [vm_compute; reflexivity|]).
+Proof. do 7 (split; [vm_compute; reflexivity|]).
   split; [exact ord_ok_default|]. eexists. split; [vm_compute; reflexivity|]. reflexivity. Qed.
 Example C07_ex_worklist : work str_dec (fun n => if str_eqb n (L "A") then [L "B"; L "X"] else if str_eqb n (L "B") then [L "A"] else [])
     (fun n => str_eqb n (L "A") || str_eqb n (L "B")) (fun _ => true) 9 [L "A"; L "Z"] [] = Some [L "B"; L "A"].
 Proof. vm_compute. reflexivity. Qed.
-Example C07_ex_harvest : extract_type_names (tts ex2) = [L "A"; L "B"] /\ extract_type_names (tts ex3) = [].
+Example C07_ex_harvest : extract_type_names (tts ex2) = [L "A"; L "B"] /\ extract_type_names (tts ex3) = [L "User"].
 Proof. split; vm_compute; reflexivity. Qed.
 
 Print Assumptions C07_exact.
@@ -133,8 +134,8 @@ Print Assumptions C07_spec_total.
 Print Assumptions C07_model_total.
 Print Assumptions C07_result_map_refuted.
 Print Assumptions C07_tuple_generic_refuted.
-Print Assumptions C07_result_alias_refuted.
-Print Assumptions C07_event_nested_refuted.
+Print Assumptions C07_result_alias_repaired.
+Print Assumptions C07_event_nested_repaired.
 Print Assumptions C07_field_result_refuted.
 Print Assumptions C07_inline_mod_refuted.
 Print Assumptions C07_odd_name_refuted.
